@@ -23,6 +23,7 @@ inductive ErrKind where
   | utf8
   | unsupported
   | other
+  | illTyped             -- request whose value does not fit its type (driver answers bad-op)
   deriving DecidableEq, Repr, Inhabited
 
 def ErrKind.toString : ErrKind → String
@@ -38,6 +39,7 @@ def ErrKind.toString : ErrKind → String
   | .utf8 => "utf8"
   | .unsupported => "unsupported"
   | .other => "other"
+  | .illTyped => "ill-typed"
 
 instance : ToString ErrKind := ⟨ErrKind.toString⟩
 
